@@ -27,6 +27,7 @@ type LoadOpts struct {
 	Patterns []string          // package patterns (default ./...)
 	Overlay  map[string][]byte // file overlay (checker self-test mutants)
 	GOARCH   string            // optional second configuration
+	Tags     string            // optional build tags (second configuration)
 	Tests    bool              // include test files
 	NeedCG   bool              // build the VTA call graph
 	NeedCHA  bool              // keep the CHA graph too
@@ -63,12 +64,17 @@ func Load(o LoadOpts) (*Prog, error) {
 	if o.GOARCH != "" {
 		env = append(env, "GOARCH="+o.GOARCH, "CGO_ENABLED=0")
 	}
+	var bflags []string
+	if o.Tags != "" {
+		bflags = []string{"-tags=" + o.Tags}
+	}
 	cfg := &packages.Config{
-		Mode:    packages.LoadAllSyntax,
-		Dir:     o.Repo,
-		Env:     env,
-		Tests:   o.Tests,
-		Overlay: o.Overlay,
+		BuildFlags: bflags,
+		Mode:       packages.LoadAllSyntax,
+		Dir:        o.Repo,
+		Env:        env,
+		Tests:      o.Tests,
+		Overlay:    o.Overlay,
 	}
 	pats := append([]string{}, o.Patterns...)
 	pats = append(pats, o.Ref...)
@@ -128,7 +134,8 @@ func Load(o LoadOpts) (*Prog, error) {
 }
 
 // FuncName gives the canonical, position-free name of a function:
-//   pkgpath.Func, pkgpath.(*T).Method, pkgpath.(T).Method, parent$1 for closures.
+//
+//	pkgpath.Func, pkgpath.(*T).Method, pkgpath.(T).Method, parent$1 for closures.
 func FuncName(fn *ssa.Function) string {
 	if fn == nil {
 		return ""
